@@ -44,8 +44,32 @@ def parseCall (s : String) : Option Call :=
     pure (.handle (BitVec.ofNat 8 (← k.toNat?)) (c == "1") (same == "1") (← hexOr d))
   | _ => none
 
+/-- A quiescent observation is schedule-independent unless, inside the step to quiescence, a
+    thread is about to READ an inspectMutex `held` flag in checkFinished while another is about to
+    STORE it (the implementation's outcome then depends on the Go scheduler; both orders are
+    behaviours of the model, and its theorems cover both).  Such scenarios are not compared from
+    that point on. -/
+def raceNow (s : St) (tids : List Tid) : Bool :=
+  let readsW := tids.any fun t => match s.pc t with | .cf2 _ => s.sh.term.isSome | _ => false
+  let storesW := tids.any fun t => match s.pc t with
+    | .heldW .. => true | .heldWmu _ => true | .tryW _ => s.sh.w.isNone
+    | .lockW .. => s.sh.w.isNone | .lockWmu _ => s.sh.w.isNone | _ => false
+  let readsR := tids.any fun t => match s.pc t with | .cf3 _ => true | _ => false
+  let storesR := tids.any fun t => match s.pc t with
+    | .heldR _ => true | .lockR _ => s.sh.r.isNone | _ => false
+  (readsW && storesW) || (readsR && storesR)
+
+/-- `settle` that also reports whether a read/store race on a held flag was passed -/
+def settleRace : Nat → List Tid → St → Bool → St × Bool
+  | 0, _, s, r => (s, r)
+  | fuel + 1, ts, s, r =>
+    match ts.findSome? (fun t => step s t) with
+    | some s' => settleRace fuel ts s' (r || raceNow s ts)
+    | none => (s, r)
+
 structure Run where
   st : St
+  racy : Bool := false
   tids : List Tid := []
   reported : List Tid := []
   wireSeen : Nat := 0
@@ -57,7 +81,8 @@ def framesHex (fs : List Frame) : String := (fs.foldl (fun acc f => acc ++ appen
 def settleAuto : Nat → Run → Run
   | 0, r => r
   | fuel + 1, r =>
-    let st := settle 4000 r.tids r.st
+    let (st, racy) := settleRace 4000 r.tids r.st r.racy
+    let r := { r with racy := racy }
     if r.auto then
       match st.sh.inflight with
       | some _ => match envStep st (.release none) with
@@ -104,7 +129,7 @@ def handle (cmd : String) (a : List String) : Option String :=
         let r1 ← doAction acc.1 act
         let r2 := settleAuto 300 r1
         let (r3, o) := observe r2
-        pure (r3, acc.2 ++ [o])) ({ st := st0 }, [])
+        pure (r3, acc.2 ++ [if r3.racy then "[RACY]" else o])) ({ st := st0 }, [])
     pure (" ".intercalate out)
   | _ => none
 
